@@ -4,6 +4,7 @@ import ast
 from ..model import (AnalysisError, FUNC_TYPES, U, call_attr, call_name, dotted, enclosing, enclosing_function, guard_texts, guards_ex,
                      short, walk_body, walk_local, ancestors, parent, const_str, kwarg, literal, qual_of)
 from .. import feat
+from . import cleaner_shape as shape
 from ..util import params, find_calls, assigns_to, trace, stmt_of, has_exit, syn_dominates
 from . import c06
 
@@ -159,50 +160,44 @@ def r2_pipeline(cx):
     cx.rule("C08.R2", "every enabled stage is in the per-line pipeline", floor=8)
     cm = cx.repo.module(CL)
     cc = cm.func("Cleaner.clean_content", "C08.R2")
+    plist, pdef = shape.stage_list_name(cc)
+    if plist is None:
+        cx.bad(cc, "the stages of one call are collected in a fresh local list (a list kept on the instance would be shared between concurrent calls)", construct="(no local stage list)")
+        return
     # redaction stage
-    red = [x for x in find_calls(cc.body, attr="append") if U(x.func.value) == "parsers" and "self.redact['pattern']" in U(x)]
+    red = [x for x in find_calls(cc.body, attr="append") if U(x.func.value) == plist and "self.redact['pattern']" in U(x)]
     if not red:
-        cx.bad(cc, "the pattern redactor is part of the pipeline", construct="(no parsers.append(self.redact['pattern']...))")
+        cx.bad(cc, "the pattern redactor is part of the pipeline", construct="(no %s.append(self.redact['pattern']...))" % plist)
     for x in red:
         g = set(guard_texts(x))
-        if isinstance(parent(x), ast.IfExp):
-            pass
         ok = ("self.redact['pattern']", True) in g and ("no_redact", False) in g and g <= set([("self.redact['pattern']", True), ("no_redact", False)])
         cx.require(ok, x, "the pattern redactor is appended whenever patterns are configured and no_redact is not set", construct="guards %s" % sorted(g))
     # obfuscation stages
-    loops = [s for s in cc.body if isinstance(s, ast.For) and "self.obfuscate" in U(s.iter)]
-    if not loops:
+    ent = shape.obfuscator_entries(cc, plist)
+    if ent is None:
         cx.bad(cc, "every configured obfuscator is considered", construct="(no loop over self.obfuscate)")
-    for lp in loops:
-        it = U(lp.iter)
-        tv = U(lp.target)
-        over_all = "self.obfuscate.keys()" in it or "set(self.obfuscate)" in it or it.replace(" ", "") in ("self.obfuscate",)
-        minus = "no_obfuscate" in it
-        cx.require(over_all and minus and ("DEFAULT_OBFUSCATIONS" not in it), lp, "the loop ranges over all keys of self.obfuscate minus the datasource's no_obfuscate list",
-                   construct="for %s in %s" % (tv, short(it, 120)))
-        ap = [x for x in find_calls(lp.body, attr="append") if U(x.func.value) == "parsers"]
-        ok = False
-        if len(ap) == 1 and not has_exit(lp.body):
-            g = set(guard_texts(ap[0], stop=lp))
-            if g == set([("self.obfuscate[%s]" % tv, True)]) and ("self.obfuscate[%s]" % tv) in U(ap[0].args[0]):
-                ok = True      # for name in <names>: if self.obfuscate[name]: parsers.append((self.obfuscate[name], ...))
-            elif not g and isinstance(lp.iter, (ast.ListComp, ast.GeneratorExp)) and tv in U(ap[0].args[0]):
-                comp = lp.iter
-                nv = U(comp.generators[0].target)
-                ok = len(comp.generators) == 1 and U(comp.elt) == "self.obfuscate[%s]" % nv and [U(c) for c in comp.generators[0].ifs] == ["self.obfuscate[%s]" % nv]
-        cx.require(ok, ap[0] if ap else lp, "every such obfuscator that is configured (truthy) is appended, no other condition, no early exit",
-                   construct=short(ap[0]) if ap else "(no append)")
-    cl = [n for n in cc.body if isinstance(n, FUNC_TYPES) and n.name == "_clean_line"]
-    if not cl:
+    else:
+        node, it, atoms, elt, tv, exits = ent
+        ordered, over_all, minus, rest = shape.name_set_meaning(it, cc, tv, atoms)
+        cx.require(over_all and minus, node, "the loop ranges over all keys of self.obfuscate minus the datasource's no_obfuscate list",
+                   construct="for %s in %s%s" % (tv, short(it, 100), " if %s" % sorted(atoms) if atoms else ""))
+        ok = rest == set([("self.obfuscate[%s]" % tv, True)]) and ("self.obfuscate[%s]" % tv) in elt and not exits
+        cx.require(ok, node, "every such obfuscator that is configured (truthy) is appended, no other condition, no early exit",
+                   construct="%s under %s" % (short(node), sorted(rest)))
+    f, calls, pparam, okh = shape.clean_line_helper(cm, cc, plist)
+    if f is None:
         cx.unknown(cc, "no _clean_line helper")
     else:
-        f = cl[0]
-        loops = [s for s in f.body if isinstance(s, ast.For)]
-        ok = len(loops) == 1 and U(loops[0].iter) == "parsers" and not has_exit(loops[0].body) and len(loops[0].body) == 1 and \
-            U(loops[0].body[0]) in ("line = parser.parse_line(line, **kwargs)",)
+        cx.require(okh and bool(calls), f, "the per-line helper works on the stage list built by this call", construct="%d call(s) of %s" % (len(calls), f.name))
+        loops = [s_ for s_ in f.body if isinstance(s_, ast.For)]
+        lv = params(f)[0] if params(f) and params(f)[0] not in ("self", "cls") else (params(f)[1] if len(params(f)) > 1 else "line")
+        ok = len(loops) == 1 and U(loops[0].iter) == pparam and not has_exit(loops[0].body) and len(loops[0].body) == 1 and isinstance(loops[0].target, ast.Tuple) and len(loops[0].target.elts) == 2
+        if ok:
+            pv, kv = [U(e) for e in loops[0].target.elts]
+            ok = U(loops[0].body[0]) == "%s = %s.parse_line(%s, **%s)" % (lv, pv, lv, kv)
         cx.require(ok, f, "every stage of the pipeline is applied to every line, in list order, with no early exit", construct=short(loops[0], 120) if loops else "def _clean_line")
         rets = [r for r in f.body if isinstance(r, ast.Return)]
-        cx.require(len(rets) == 1 and U(rets[0].value) == "line", f, "_clean_line returns the line as transformed by the last stage", construct=short(rets[0]) if rets else "(none)")
+        cx.require(len(rets) == 1 and U(rets[0].value) == lv, f, "_clean_line returns the line as transformed by the last stage", construct=short(rets[0]) if rets else "(none)")
     # __init__: keyword/password outside the obfuscate branch; option -> key table
     init = cm.func("Cleaner.__init__", "C08.R2")
     od = [a for a in walk_body(init.body) if isinstance(a, ast.Assign) and U(a.targets[0]) == "self.obfuscate" and isinstance(a.value, ast.Dict)]
@@ -431,9 +426,12 @@ def r6_global_substitution(cx):
         g = [1 for e, p, o in guards_ex(sh[0]) if o != "exit-return" or U(e) != "line"]
         ok = len(sh[0].args) == 2 and U(sh[0].args[1]) == "self._hn2db(self._fqdn)" and isinstance(st, ast.Assign) and U(st.targets[0]) == "line" and \
             enclosing(sh[0], (ast.For, ast.If)) is None and bool(rets) and syn_dominates(st, rets[0])
+        # or returned directly: return line.replace(self._hostname, ...)
+        ok = ok or (len(sh[0].args) == 2 and U(sh[0].args[1]) == "self._hn2db(self._fqdn)" and isinstance(st, ast.Return) and st.value is sh[0] and U(sh[0].func.value) == "line"
+                    and enclosing(sh[0], (ast.For, ast.If)) is None and enclosing(st, ast.Try) is not None)
     cx.require(ok, sh[0] if sh else fh, "the short host name is replaced unconditionally afterwards, on the path that returns the line",
                construct=short(stmt_of(sh[0])) if sh else "(no line.replace(self._hostname, ...))")
-    dl = [s for s in walk_body(fh.body) if isinstance(s, ast.For) and U(s.iter) == "self._dn_db.items()"]
+    dl = [s for s in walk_body(fh.body) if isinstance(s, ast.For) and U(s.iter) in ("self._dn_db.items()", "self._dn_db.values()", "self._dn_db")]
     cx.require(bool(dl) and not has_exit([x for x in dl[0].body if not isinstance(x, ast.For)]), dl[0] if dl else fh, "every known domain is searched for", construct="for od, d in self._dn_db.items()")
     # password template
     pw = cx.repo.module("insights.cleaner.password")
